@@ -14,6 +14,8 @@ def scenarios(tier):
                       explore=1000, constraints=['nblk <= 5']))
     S.append(scenario('ml2_np2', dict(NP=2, NL=2, NSW=[2, 1], MAXITER=2, PRED='pfasst_burnin', TEND=16, DT0=4, MAXR=1),
                       rs=(False, True), view='view', explore=800, constraints=['nblk <= 3']))
+    # a controller that is used a second time: the statistics of the first run stay the record of the first run
+    S.append(scenario('reuse_np4', dict(NP=4, MAXITER=1, T0=40, TEND=56, DT0=4, REUSE=True), rs=(False, True), view='view', explore=150, mc=False))
     S.append(scenario('gen_np2', dict(NP=2, MAXITER=1, TEND=8, DT0=4, MAXR=1), rs=(False, True), dtm=(0, 1), view='view',
                       constraints=['nblk <= 2'], gen='all', mc=False))
     if tier == 'thorough':
